@@ -3,12 +3,13 @@ package tagstree
 import (
 	"os"
 	"path/filepath"
+	"strings"
 	"testing"
 
 	"github.com/stretchr/testify/require"
 )
 
-// Demonstrates F-C19-d (recorded, not repaired): a tag key taken from a metrics query
+// Demonstrates F-C19-d (repaired: a tag key must be a single path element): a tag key taken from a metrics query
 // (OpenTSDB `m=metric{../../x=...}`, PromQL label matchers) is appended to the tags-tree
 // directory and opened.  A key with ../ makes the server open and parse a file outside
 // the segment's tags-tree directory (and outside the data directory).
@@ -25,7 +26,10 @@ func Test_Finding_C19d_TagKeyEscapesTagsTreeDir(t *testing.T) {
 	_, errOutside := attr.initTagsTreeReader("../../outside-secret")
 	// if the name were confined to the directory both lookups would fail the same way (file not found)
 	if errOutside != nil {
-		require.Equal(t, errMissing.Error(), errOutside.Error(), "the reader opened and read a file outside the tags-tree directory (different outcome for an existing outside file)")
+		norm := func(e error) string {
+			return strings.ReplaceAll(strings.ReplaceAll(e.Error(), "outside-secret", "X"), "does-not-exist", "X")
+		}
+		require.Equal(t, norm(errMissing), norm(errOutside), "the reader opened and read a file outside the tags-tree directory (different outcome for an existing outside file)")
 	} else {
 		t.Fatalf("the reader opened and accepted a file outside the tags-tree directory")
 	}
